@@ -25,7 +25,10 @@ CHECKS = {
    note="Trusted: Coq kernel, hand-written model of sort.rs/compare_items (usize = 64 bit), slice::sort_by is a correct stable sort given a total preorder. Ord for UseTree (imports.rs) is not modelled: import ordering is covered only by the end-to-end permutation oracle. Group boundaries (blank lines, macro_use, skip) not covered by this check. Known finding class: identifiers with a digit run >= 2^64."),
  "C17": dict(cat="proof", ref="DESIGN.md §5 C17",
    text="Coq theorems (28) over a model of Range and FileLines: queries answer as the UNION of the given ranges for every range list incl. empty ranges, normal form sorted/disjoint/non-adjacent, empty selection selects nothing; model tied to the code by a seeded correspondence run through hook config::file_lines::verif; union semantics also evaluated directly on the implementation's answers.",
-   note="Partial: the range algebra and queries are proved; the clauses about emitted bytes (unselected items byte-identical, selected code formatted as without restriction) are not covered by this check yet. Trusted: Coq kernel, hand-written model, Vec::sort correctness, path canonicalisation abstracted."), "C20": dict(cat="proof", ref="DESIGN.md §5 C20",
+   note="Partial: the range algebra and queries are proved; the clauses about emitted bytes (unselected items byte-identical, selected code formatted as without restriction) are not covered by this check yet. Trusted: Coq kernel, hand-written model, Vec::sort correctness, path canonicalisation abstracted."), "C19": dict(cat="proof", ref="DESIGN.md §5 C19",
+   text="Coq theorems (25) over a model of scan_diff / run_rustfmt with the two regexes as explicit matchers: for every rendered unified diff satisfying an explicit well-formedness predicate, the scanner returns exactly the post-image ranges of the hunks with count > 0 of the files whose stripped path matches the filter (scan_render), for any number of files and hunks; each conjunct of the predicate is shown necessary by a refutation witness; non-header lines contribute nothing, zero counts are skipped, a missing count is one, an empty result runs nothing, a failing rustfmt fails the tool. Tied to the code by running the real rustfmt-format-diff binary on generated patches and on real diff(1) output with a recording $RUSTFMT stand-in; argv and exit status compared with the model and with ranges recomputed independently from the patch.",
+   note="Trusted: Coq kernel; hand-written matchers standing for the regex crate (validated by the correspondence run); \\d modelled as ASCII digit; the user filter is an abstract predicate; u32 overflow = panic (debug build). Two defects repaired (fix: commits), the model is the repaired scanner; remaining refuted conditions (paths with spaces, body line '+++ x', u32 overflow) are outside the property's quantifier or recorded in DESIGN.md."),
+ "C20": dict(cat="proof", ref="DESIGN.md §5 C20",
    text="Coq theorems over the backup protocol as a list of file-system operations (non-atomic write, atomic rename): after every prefix of the operations, with the next one interrupted at any byte or failing, the original is complete in FILE or FILE.bk and FILE holds the original or the formatted text, never a partial one; success post-condition; unchanged files get no operation; other paths untouched. Tied to the code by real `rustfmt --backup` processes aborted / faulted at every named crash point (cfg-guarded hook) for every position in a 3-file run, directory contents compared with the model state, and by strace comparing the real order of openat/rename with the model's operation list.",
    note="Trusted: Coq kernel; POSIX assumptions (rename atomic, write not) stated in the model; the mid-write crash is modelled, not provoked; with_extension yields three distinct names (hypothesis of the theorems: two inputs x.rs and x.foo would share x.tmp/x.bk, a pre-existing x.bk is overwritten — outside the property's text)."),
 }
